@@ -50,7 +50,11 @@ def verify_one(mut, target):
         if not apply(mut, d):
             return {'id': mut['id'], 'status': 'does-not-apply'}
         env = dict(os.environ, CARGO_TARGET_DIR=target, CARGO_NET_OFFLINE='true')
-        r = subprocess.run(['cargo', 'test', '--offline', '--lib', '--quiet'], cwd=d, env=env, capture_output=True, text=True)
+        try:
+            r = subprocess.run(['cargo', 'test', '--offline', '--lib', '--quiet'], cwd=d, env=env, capture_output=True, text=True, timeout=240)
+        except subprocess.TimeoutExpired:
+            subprocess.run(['pkill', '-f', os.path.join(target, 'debug', 'deps')])
+            return {'id': mut['id'], 'status': 'tests-hang'}
         out = r.stdout + r.stderr
         m = re.search(r'test result: (\w+)\. (\d+) passed; (\d+) failed', out)
         if r.returncode != 0 and not m:
@@ -81,22 +85,76 @@ def run_checks(mut, props):
         shutil.rmtree(d, ignore_errors=True)
 
 
+def apply_pairs(eq, d):
+    p = os.path.join(d, eq['file'])
+    s = open(p).read()
+    for old, new, count in eq['pairs']:
+        c = s.count(old)
+        if c == 0 or (count is not None and c != count):
+            return False
+        s = s.replace(old, new)
+    open(p, 'w').write(s)
+    return True
+
+
+def run_equivalent_one(eq):
+    d = scratch_copy()
+    try:
+        if not apply_pairs(eq, d):
+            return eq['id'], None
+        alarms = {}
+        for i in range(1, 19):
+            p = 'C%02d' % i
+            r = subprocess.run([os.path.join(HERE, 'check'), p, '--repo', d, '--no-evidence'], capture_output=True, text=True)
+            if r.returncode != 0:
+                alarms[p] = [l.strip()[:260] for l in r.stdout.splitlines() if re.match(r'^\s+(FAIL|ANCHOR) ', l)][:4]
+        return eq['id'], alarms
+    finally:
+        shutil.rmtree(d, ignore_errors=True)
+
+
+def run_equivalent(a):
+    from equivalent import E
+    eqs = [e for e in E if not a.only or a.only in e['id']]
+    bad = []
+    with concurrent.futures.ThreadPoolExecutor(max_workers=a.jobs) as ex:
+        for eid, alarms in ex.map(run_equivalent_one, eqs):
+            if alarms is None:
+                print('%-28s SKIPPED (does not apply)' % eid)
+            elif alarms:
+                bad.append(eid)
+                print('%-28s FALSE ALARM %s' % (eid, json.dumps(alarms, ensure_ascii=False)[:900]))
+            else:
+                print('%-28s silent' % eid)
+    print('%d behaviour-preserving edits, %d false alarms: %s' % (len(eqs), len(bad), bad))
+    return 1 if bad else 0
+
+
 def main():
     ap = argparse.ArgumentParser()
     ap.add_argument('--verify', action='store_true')
     ap.add_argument('--run', action='store_true')
     ap.add_argument('--matrix', action='store_true')
+    ap.add_argument('--equivalent', action='store_true', help='behaviour-preserving edits: every check must stay silent')
     ap.add_argument('--prop')
     ap.add_argument('--only')
     ap.add_argument('--jobs', type=int, default=8)
     a = ap.parse_args()
     muts = [m for m in M if (not a.prop or a.prop in m['props']) and (not a.only or a.only in m['id'])]
+    if a.equivalent:
+        sys.exit(run_equivalent(a))
     if a.verify:
         target = tempfile.mkdtemp(prefix='t2n-mutant-target-')
         res = {}
         try:
+            done = json.load(open(VERIFIED)) if os.path.exists(VERIFIED) else {}
             for mut in muts:
+                if mut['id'] in done and done[mut['id']].get('old') == mut['old'] and done[mut['id']].get('new') == mut['new']:
+                    res[mut['id']] = done[mut['id']]
+                    continue
                 r = verify_one(mut, target)
+                r['old'], r['new'] = mut['old'], mut['new']
+                json.dump(dict(done, **res, **{mut['id']: r}), open(VERIFIED, 'w'), indent=1, sort_keys=True)
                 res[mut['id']] = r
                 print('%-34s %s %s' % (mut['id'], r['status'], (r.get('detail') or '')[-300:].replace('\n', ' | ') if r['status'] != 'pass' else ''))
         finally:
